@@ -117,7 +117,7 @@ func calleeKey(rhs string, srcVar, srcType string) string {
 // Driver renders the test file for one package. funcs: generated functions in the output.
 func Driver(funcs []Func, srcTypes map[string]string, dotImport bool) string {
 	var sb strings.Builder
-	sb.WriteString("package pk\n\nimport (\n\t\"errors\"\n\t\"fmt\"\n\t\"os\"\n\t\"strconv\"\n\t\"testing\"\n\n\tv1 \"cvcase/api/v1\"\n\t\"cvcase/deep\"\n\t\"cvcase/dot\"\n" + map[bool]string{true: "\t. \"cvcase/dot\"\n", false: ""}[dotImport] + "\t\"cvcase/ext\"\n\t\"cvcase/ext2\"\n)\n\nvar _ = errors.New\nvar _ ext.Status\nvar _ ext2.Status\nvar _ v1.Kind\nvar _ deep.Item\nvar _ dot.Kind\n" + map[bool]string{true: "var _ = DotConv\n", false: ""}[dotImport] + "var _ = fmt.Sprint\nvar _ = strconv.Itoa\n\n")
+	sb.WriteString("package pk\n\nimport (\n\t\"errors\"\n\t\"fmt\"\n\t\"os\"\n\t\"strconv\"\n\t\"testing\"\n\n\tv2 \"cvcase/api/v2\"\n\t\"cvcase/deep\"\n\t\"cvcase/dot\"\n" + map[bool]string{true: "\t. \"cvcase/dot\"\n", false: ""}[dotImport] + "\t\"cvcase/ext\"\n\t\"cvcase/ext2\"\n)\n\nvar _ = errors.New\nvar _ ext.Status\nvar _ ext2.Status\nvar _ v2.Kind\nvar _ deep.Item\nvar _ dot.Kind\n" + map[bool]string{true: "var _ = DotConv\n", false: ""}[dotImport] + "var _ = fmt.Sprint\nvar _ = strconv.Itoa\n\n")
 	var calls []string
 	for _, f := range funcs {
 		h, err := parseHeader(f.Text)
